@@ -171,11 +171,15 @@ def run_shard(shard, tier, seed):
                     continue  # keyword pass-through is independent of the alias map size
                 v = check(ns, I, aliases, spacing, extra, res, ev=shared, variant=variant)
                 call_rec = {"aliases": aliases, "spacing": spacing, "extra": extra}
-                if v:
+                if v and res.violation_count >= 12:
+                    # enough witnesses from this shard: count the case, skip the search for a short history
+                    res.violation(v[0], {"modules": ns, "imports": I, "aliases": aliases, "spacing": spacing, "extra": extra, "variant": variant,
+                                         "note": "not minimised"}, v[1], v[2])
+                elif v:
                     case = {"modules": ns, "imports": I, "aliases": aliases, "spacing": spacing, "extra": extra, "variant": variant}
                     if check(ns, I, aliases, spacing, extra, None, variant=variant) is None:
                         # only after earlier calls on the same evaluable: keep the shortest suffix that reproduces
-                        for n_prev in (1, 2, len(history)):
+                        for n_prev in (1, 2, 8, min(len(history), 400)):
                             case["history"] = history[-n_prev:] if n_prev else []
                             if _check_case(case):
                                 break
@@ -257,6 +261,8 @@ def minimise(v):
     case = dict(v["case"])
     if case.get("variant") == "dict-reuse":
         return dict(v, signature=f"{v['kind']}:keys{len(case['aliases'])}")
+    if case.get("note") == "not minimised":
+        return dict(v, signature=f"{v['kind']}:after-earlier-calls-on-the-shared-architecture")
     if case.get("history"):
         v = dict(v)
         v["signature"] = f"{v['kind']}:history{len(case['history'])}"
